@@ -198,6 +198,36 @@ pub fn generate(seed: u64, thorough: bool, out: &mut dyn FnMut(String)) {
         }
     }
 
+    // ---- a HISTORY on one buffer: full byte fill (grows the scratch buffer), `resize`, then the fill under test.
+    // The capacity that counts is the one after the resize.
+    for &(ch, n) in &[(1usize, 64usize), (2, 64), (3, 40)] {
+        for &m in &[32usize, 33, n - 1, n, n + 9] {
+            let cap = ch * m;
+            for &len in &[cap - ch, cap, cap + 1, cap + ch, ch * n, ch * n + ch] {
+                for &k in &[0usize, 2, 3] {
+                    let e2 = enc.clone();
+                    let res = direct(move || {
+                        let mut fb = FrameBuf::with_size(ch, n).unwrap();
+                        fb.fill_le_bytes(&vec![1u8; ch * n * 2], 2).unwrap();
+                        fb.resize(m);
+                        let r = if k == 0 {
+                            fb.fill_interleaved(&(0..len).map(|i| (i as i32 % 5) - 2).collect::<Vec<i32>>())
+                        } else {
+                            fb.fill_le_bytes(&(0..len * k).map(|i| (i * 29 % 251) as u8).collect::<Vec<u8>>(), k)
+                        };
+                        if r.is_err() {
+                            return false;
+                        }
+                        let si = StreamInfo::new(44100, ch, if k == 3 { 24 } else { 16 }).unwrap();
+                        let _ = flacenc::encode_fixed_size_frame(&e2, &fb, 0, &si);
+                        true
+                    });
+                    emit("fill_after_resize", &[ch, n, m, len, k], res, len > cap, out);
+                }
+            }
+        }
+    }
+
     // ---- Context::fill_le_bytes with a width different from its own
     for &bps in &VALID_BPS {
         for &k in &[0usize, 1, 2, 3, 4, 5, (1usize << 32) + 2] {
@@ -302,6 +332,20 @@ pub fn generate(seed: u64, thorough: bool, out: &mut dyn FnMut(String)) {
                 });
                 emit(if mt { "encode_mt_sample" } else { "encode_st_sample" }, &[pos, (v as i64 + (1 << 31)) as usize], res, true, out);
             }
+        }
+        // SEVERAL blocks with an out-of-range sample, followed by valid blocks: in multi-thread mode every failed
+        // block must hand its buffer back to the feeder (2 * workers buffers circulate), or the feeder starves
+        for &(bad, total) in &[(1usize, 8usize), (3, 10), (4, 10), (5, 12), (7, 14), (12, 12), (9, 40)] {
+            let e2 = enc.clone();
+            let mut d2: Vec<i32> = (0..total * 128).map(|_| rng.range(-100, 100) as i32).collect();
+            for b in 0..bad {
+                d2[b * 128 + 17 + b] = if b % 2 == 0 { 32768 } else { -32769 };
+            }
+            let res = guarded(move || {
+                let src = RawSource { ch: 2, bps: 16, rate: 44100, data: d2, pos: 0, bytes_mode: None };
+                flacenc::encode_with_fixed_block_size(&e2, src, 64).is_ok()
+            });
+            emit(if mt { "encode_mt_bad_blocks" } else { "encode_st_bad_blocks" }, &[bad, total], res, true, out);
         }
         // byte delivery with a width that disagrees with the declared sample width
         for &(bps, k) in &[(16usize, 2usize), (16, 1), (16, 3), (16, 4), (24, 3), (24, 2), (24, 4), (8, 1), (8, 2), (20, 3), (20, 2)] {
